@@ -354,7 +354,11 @@ def calculate_nd_frequencies(
     frequencies = frequencies.astype(dtype)  # Automatically copy
     frequencies = frequencies[ixgrid]
     if weights is not None:
-        missing = weights.sum() - frequencies.sum()
+        counts, _ = np.histogramdd(data, edges)
+        if counts[ixgrid].sum() == data.shape[0]:
+            missing = 0  # (The difference below would only be a rounding residue)
+        else:
+            missing = weights.sum() - frequencies.sum()
         err_freq, _ = np.histogramdd(data, edges, weights=weights**2)
         errors2 = err_freq[ixgrid].astype(dtype)  # Automatically copy
     else:
